@@ -19,7 +19,7 @@ from ..rules import call_sites
 from ..mutate import mutate, remove_stmts, replace_stmt, replace_expr, parse_stmt, parse_expr
 from ..model import AnalysisError
 from ..x_scope import own_nodes
-from ..x_flow import check_default_only_for_none, check_exact, param_value_flow, DEFAULT, derivation, resolve_local, expand_locals, expanded_facts, concrete_paths
+from ..x_flow import protected, check_default_only_for_none, check_exact, param_value_flow, DEFAULT, derivation, resolve_local, expand_locals, expanded_facts, concrete_paths
 
 TECHNIQUE = "table extraction + exception-escape lint on the dispatch parsers + guard-dominance / path-sensitive exploration of the command-line and config paths"
 EXPLANATION = (
@@ -45,9 +45,9 @@ def _exc_name(r):
 
 
 def _caught_by(pm, node, exc):
-    h = q.protected_by(pm, node, exc)
+    h = protected(pm, node, exc)
     if h is None and exc not in q.EXC_PARENT and exc.split(".")[-1] not in q.EXC_PARENT and exc not in ("BaseException",):
-        h = q.protected_by(pm, node, "Exception")  # module-defined exception classes derive from Exception
+        h = protected(pm, node, "Exception")  # module-defined exception classes derive from Exception
     return h
 
 
@@ -252,105 +252,132 @@ def rule_default(ck):
 
 
 def rule_command_line(ck):
+    """parse_command_line decided by finite-domain evaluation of one loop iteration: for every combination of
+    (option known?, `=` present?, value text, option is bool?) the iteration is folded on its CFG and must end in exactly the
+    expected outcome (raise / parse(<text>)).  The name and value handed on are traced back to the partition of the argument."""
     fi = ck.func(F, "OptionParser.parse_command_line")
     cfg = fi.cfg
-    # name, equals, value = arg.partition("=")
-    parts = [n for n in own_nodes(fi.node) if isinstance(n, ast.Assign) and isinstance(n.value, ast.Call) and q.call_attr(n.value) in ("partition", "rpartition") and n.value.args and q.is_const(n.value.args[0], "=")
-             and isinstance(n.targets[0], ast.Tuple) and len(n.targets[0].elts) == 3 and all(isinstance(e, ast.Name) for e in n.targets[0].elts)]
-    if len(parts) != 1:
+    argsp = [p for p in fi.params() if p != "self"][0]
+    pnodes = [n for n in cfg.stmt_nodes(lambda n: n.kind == "stmt" and isinstance(n.ast, ast.Assign) and isinstance(n.ast.value, ast.Call) and q.call_attr(n.ast.value) in ("partition", "rpartition")
+                                         and n.ast.value.args and q.is_const(n.ast.value.args[0], "=") and isinstance(n.ast.targets[0], ast.Tuple) and len(n.ast.targets[0].elts) == 3
+                                         and all(isinstance(e, ast.Name) for e in n.ast.targets[0].elts))]
+    if len(pnodes) != 1:
         raise AnalysisError("parse_command_line: expected one `name, equals, value = arg.partition('=')`")
-    name, equals, value = (e.id for e in parts[0].targets[0].elts)
+    pnode = pnodes[0]
+    name, equals, value = (e.id for e in pnode.ast.targets[0].elts)
     opts = "self._options"
-    # lookups
-    gets = q.find_calls(fi.node, opts + ".get")
-    if gets:
-        raise AnalysisError("parse_command_line looks options up with .get(): unknown idiom for the unknown-option rule")
+    # lookups: self._options[K]  or  O = self._options.get(K)
     subs = [n for n in own_nodes(fi.node) if isinstance(n, ast.Subscript) and q.dotted(n.value) == opts]
-    ck.floor("C44.unknown-option", len(subs), 1, "option lookups")
-    keys = {q.dotted(sb.slice) for sb in subs}
-    if len(keys) != 1 or None in keys:
-        raise AnalysisError("parse_command_line: option lookups do not use one local key name")
-    keyname = keys.pop()
-    member = "%s in %s" % (keyname, opts)
-    sub_nodes = {nd.id for sb in subs for nd in cfg.nodes_for(sb)}
-    dropped = {}
+    gets = [c for c in q.find_calls(fi.node, opts + ".get")]
+    if any(len(c.args) != 1 or c.keywords for c in gets):
+        raise AnalysisError("parse_command_line: self._options.get with a default: unknown idiom")
+    key_exprs = [sb.slice for sb in subs] + [c.args[0] for c in gets]
+    ck.floor("C44.unknown-option", len(key_exprs), 1, "option lookups")
+    get_names = set()
+    pm = q.parent_map(fi.node)
+    for c in gets:
+        st = q.enclosing_stmt(pm, c)
+        if not (isinstance(st, ast.Assign) and st.value is c and len(st.targets) == 1 and isinstance(st.targets[0], ast.Name)):
+            raise AnalysisError("parse_command_line: result of self._options.get() is not bound to a name")
+        get_names.add(st.targets[0].id)
     parses = call_sites(fi, ".parse")
     ck.floor("C44.missing-value", len(parses), 1, "option.parse call sites")
     parse_ids = {n.id for n, _c in parses}
-    bad_unknown = {}
-    istype = None
+    is_arg = lambda x: isinstance(resolve_local(fi, x), ast.Subscript) and q.dotted(resolve_local(fi, x).value) == argsp and not isinstance(resolve_local(fi, x).slice, ast.Slice)
 
-    def tr(n, v):
-        unknown, noval, pending = v
-        if unknown and (n.kind == "for" or n.id in parse_ids or n.id == cfg.exit.id or (n.kind == "stmt" and isinstance(n.ast, (ast.Return, ast.Continue, ast.Break)))):
-            bad_unknown[n.id] = n
-            return None
-        if pending and (n.kind == "for" or (n.kind == "stmt" and isinstance(n.ast, ast.Return))):
-            dropped[n.id] = n
-            pending = False
-        if n.id in sub_nodes:
-            pending = True
+    def make_subst(known, isbool):
+        class T(ast.NodeTransformer):
+            def visit_Compare(self, node):
+                if len(node.ops) == 1:
+                    l, op, r = node.left, node.ops[0], node.comparators[0]
+                    if isinstance(op, (ast.In, ast.NotIn)) and q.dotted(r) == opts:
+                        return ast.Constant(value=known if isinstance(op, ast.In) else not known)
+                    if isinstance(l, ast.Name) and l.id in get_names and isinstance(op, (ast.Is, ast.IsNot)) and q.is_const(r, None):
+                        return ast.Constant(value=(not known) if isinstance(op, ast.Is) else known)
+                    if (q.dotted(l) or "").endswith(".type") and isinstance(r, ast.Name) and r.id == "bool" and isinstance(op, (ast.Eq, ast.Is, ast.NotEq, ast.IsNot)):
+                        return ast.Constant(value=isbool if isinstance(op, (ast.Eq, ast.Is)) else not isbool)
+                    if is_arg(l) and isinstance(op, (ast.Eq, ast.NotEq)) and isinstance(r, ast.Constant):
+                        return ast.Constant(value=isinstance(op, ast.NotEq))  # the argument is an option, not "--"
+                return self.generic_visit(node)
+
+            def visit_Call(self, node):
+                if isinstance(node.func, ast.Attribute) and node.func.attr == "startswith" and is_arg(node.func.value):
+                    return ast.Constant(value=True)  # the argument starts with "-"
+                if q.dotted(node.func) == "issubclass" and len(node.args) == 2 and (q.dotted(node.args[0]) or "").endswith(".type") and q.dotted(node.args[1]) == "bool":
+                    return ast.Constant(value=isbool)
+                return self.generic_visit(node)
+
+            def visit_Name(self, node):
+                if node.id in get_names and isinstance(node.ctx, ast.Load):
+                    return ast.Constant(value="<option>") if known else ast.Constant(value=None)
+                return node
+
+        return lambda e: T().visit(copy.deepcopy(e))
+
+    def event(n, env):
+        if n.id == pnode.id:
+            return "arg"
         if n.id in parse_ids:
-            pending = False
-        return (unknown, noval, pending)
+            c = [c_ for n_, c_ in parses if n_.id == n.id][0]
+            try:
+                return "parse:%r" % (q.fold(c.args[0], env),) if len(c.args) == 1 else "parse:?"
+            except q.NotFoldable:
+                return "parse:?"
+        return None
 
-    def edge(n, kind, v):
-        unknown, noval, pending = v
-        if n.kind == "test" and kind in ("true", "false"):
-            t, pol = canon_fact(n.ast, kind == "true")
-            if t == member:
-                unknown = not pol
-            if t == equals:
-                noval = not pol
-        if n.kind == "for":
-            return (False, None, False)
-        return (unknown, noval, pending)
+    TRUE_WORDS = ("true", "1", "t", "yes", "y", "on")
+    rows = 0
+    for known in (True, False):
+        for eq, val in (("", ""), ("=", ""), ("=", "x"), ("=", "a=b")):
+            for isbool in (True, False):
+                def hook(n, env, eq=eq, val=val):
+                    if n.id == pnode.id:
+                        env = dict(env)
+                        env.update({name: "opt", equals: eq, value: val})
+                        return env
+                    return None
 
-    track_types = lambda t: t.endswith(".type == bool") or t.endswith(".type is bool")
-    seen = explore(cfg, (False, None, False), tr, track_types, edge_transfer=edge, follow_exc=False, exc_effect=False)
-    tests = [n for n in cfg.stmt_nodes(lambda n: n.kind == "test" and canon_fact(n.ast, True)[0] == member)]
-    if tests:
-        for tnode in tests:
-            ck.ob("C44.unknown-option", fi, tnode.ast, not bad_unknown,
-                  "an unrecognised option name always ends in an exception (never skipped, never parsed)" + ("; reaches: " + ", ".join(sorted(q.unparse(x.ast).split("\n")[0][:40] if x.ast is not None else x.kind for x in bad_unknown.values())) if bad_unknown else ""))
-    else:
-        # no membership test: the subscript lookup itself raises KeyError for unknown names
-        for s in subs:
-            ck.ob("C44.unknown-option", fi, s, isinstance(s.ctx, ast.Load), "unknown names fail in the option lookup (KeyError)")
-    # missing value only for bool
+                outs = concrete_paths(fi, {}, event, subst=make_subst(known, isbool), event_env=True, assign_hook=hook,
+                                      cut=lambda n, trace: n.kind == "for" and "arg" in trace)
+                outs = {(k, tuple(x for x in t if x != "arg")) for k, t in outs if "arg" in t}
+                got = sorted({(t + ("raise",)) if k == "raise" else t for k, t in outs})
+                if len(got) != 1:
+                    raise AnalysisError("parse_command_line: outcome for (known=%s, '%s%s', bool=%s) is not determined by folding its conditions: %s" % (known, eq, val, isbool, got))
+                g = got[0]
+                if not known:
+                    ok, rule, why = g == ("raise",), "C44.unknown-option", "an unrecognised option name always ends in an exception"
+                elif eq == "":
+                    rule = "C44.missing-value"
+                    if isbool:
+                        ok = len(g) == 1 and g[0].startswith("parse:'") and g[0][7:-1].lower() in TRUE_WORDS
+                        why = "`--flag` without `=value` on a bool option parses a true word"
+                    else:
+                        ok, why = g == ("raise",), "`--name` without `=value` is rejected for non-bool options"
+                else:
+                    rule = "C44.missing-value"
+                    ok, why = g == ("parse:%r" % (val,),), "`--name=%s` hands exactly %r to option.parse (an explicitly empty value is a value)" % (val, val)
+                rows += 1
+                ck.ob(rule, fi, fi.node, ok, "%s (known=%s, bool=%s; outcome: %s)" % (why, known, isbool, ",".join(g)), construct="cmdline known=%s eq=%r value=%r bool=%s -> %s" % (known, eq, val, isbool, ",".join(g)))
+    ck.floor("C44.missing-value", rows, 16, "rows of the command-line outcome table")
+    # provenance: the parsed text is the part after the first `=`, the key is the part before it
     for node, c in parses:
-        for facts, (unknown, noval, _pend) in sorted(seen.get(node.id, ()), key=repr):
-            if noval is None:
-                raise AnalysisError("parse_command_line: option.parse is reached without testing whether `=value` was given (unknown idiom)")
-            if noval:
-                isbool = any(track_types(t) and pol for t, pol in facts)
-                ck.ob("C44.missing-value", fi, c, isbool, "`--name` without `=value` is accepted only for bool options (others must raise)", construct="no-value isbool=%s" % isbool)
-            else:
-                ck.ob("C44.missing-value", fi, c, True, "`--name=value` path reaches option.parse", construct="with-value")
         if len(c.args) != 1:
             raise AnalysisError("option.parse() is not called with exactly the value text")
         chains = derivation(fi, c.args[0], lambda e: False)
         okv = True
         for ch in chains:
-            if ch and ch[0].op == "const" or (len(ch) == 1 and ch[0].op == "const"):
+            if len(ch) == 1 and ch[0].op == "const":
                 continue
             ops = [(st_.op, st_.detail) for st_ in ch]
             okv = okv and any(ops[i] == ("unpack", "2") and ops[i + 1][0] == ".partition" and ops[i + 1][1] == "'='" for i in range(len(ops) - 1))
         ck.ob("C44.missing-value", fi, c, okv, "the text parsed is the part after the first `=`")
-    if dropped:
-        optnames = {t.id for n_ in own_nodes(fi.node) if isinstance(n_, ast.Assign) and n_.value in subs for t in n_.targets if isinstance(t, ast.Name)}
-        handed = [c for c in q.calls(fi.node) if q.call_attr(c) != "parse" and any(q.dotted(a) in optnames or a in subs for a in list(c.args) + [k.value for k in c.keywords])]
-        if handed:
-            raise AnalysisError("parse_command_line hands the option to %s: parsing inside helpers is not followed" % q.unparse(handed[0].func))
-    ck.ob("C44.missing-value", fi, fi.node, not dropped, "a recognised option is always parsed (or rejected) before the scan moves on: no path looks the option up and then drops it", construct="option-dropped")
-    # the name looked up is the (normalised) text before `=`
-    for sb in subs:
-        chains = derivation(fi, sb.slice, lambda e: False)
+    for ke in key_exprs:
+        chains = derivation(fi, ke, lambda e: False)
         okn = bool(chains)
         for ch in chains:
             ops = [(st_.op, st_.detail) for st_ in ch]
             okn = okn and any(ops[i] == ("unpack", "0") and ops[i + 1][0] in (".partition",) and ops[i + 1][1] == "'='" for i in range(len(ops) - 1))
-        ck.ob("C44.unknown-option", fi, sb, okn, "the option looked up is the name before `=`")
+        ck.ob("C44.unknown-option", fi, ke, okn, "the option looked up is the name before `=`")
 
 
 def _subst_calls(e, table):
@@ -656,8 +683,8 @@ def rule_whole_text(ck):
     sps = [c for c in q.calls(dt.node) if q.call_attr(c) == "strptime"]
     ck.floor("C44.whole-text", len(sps), 1, "strptime calls")
     for c in sps:
-        h = q.protected_by(pmd, c, "ValueError")
-        moves_on = h is not None and not any(isinstance(x, (ast.Raise, ast.Return, ast.Break)) for st_ in h.body for x in q.walk_local(st_))
+        h = protected(pmd, c, "ValueError")
+        moves_on = h is not None and (isinstance(h, (ast.With, ast.AsyncWith)) or not any(isinstance(x, (ast.Raise, ast.Return, ast.Break)) for st_ in h.body for x in q.walk_local(st_)))
         in_loop = any(isinstance(a, ast.For) and "FORMATS" in q.unparse(a.iter) for a in q.ancestors(pmd, c))
         ck.ob("C44.whole-text", dt, c, moves_on and in_loop, "a format that does not match is skipped (ValueError handled without leaving the loop over all supported formats)")
     # int ranges only for integral option types
@@ -797,6 +824,7 @@ MUTANTS = [
     ("range syntax applied to every multiple option", _m("_Option.parse", replace_expr(lambda n: isinstance(n, ast.Call) and _src(n).startswith("issubclass(self.type"), lambda n: parse_expr("':' in part"))), "C44.whole-text"),
     ("command-line scan skips the first option", _m("OptionParser.parse_command_line", replace_expr(lambda n: isinstance(n, ast.Call) and _src(n) == "range(1, len(args))", lambda n: parse_expr("range(2, len(args))"))), "C44.whole-text"),
     ("value split at the last '='", _m("OptionParser.parse_command_line", replace_expr(lambda n: isinstance(n, ast.Attribute) and n.attr == "partition", lambda n: ast.Attribute(value=n.value, attr="rpartition", ctx=ast.Load()))), "C44.value-exact"),
+    ("seeded C44-adv4: missing-value test on the value instead of the separator", _m("OptionParser.parse_command_line", replace_expr(lambda n: isinstance(n, ast.UnaryOp) and _src(n) == "not equals", lambda n: parse_expr("not value"))), "C44.missing-value"),
     ("empty values silently skipped (`if value:` around parse)", _m("OptionParser.parse_command_line", replace_stmt(lambda st: isinstance(st, ast.Expr) and _src(st) == "option.parse(value)", lambda st: [parse_stmt("if value:\n    option.parse(value)")])), "C44.missing-value"),
     ("unknown command-line option silently ignored", _m("OptionParser.parse_command_line", _ignore_unknown), "C44.unknown-option"),
     ("datetime parser returns its input when no format matches", _m("_Option._parse_datetime", replace_stmt(lambda st: isinstance(st, ast.Raise), lambda st: [parse_stmt("return value")])), ("C44.rejecting-path", "C44.no-passthrough")),
